@@ -290,40 +290,57 @@ def estimator_lane(ctx, thorough):
 
 
 def equivalence_lane(ctx, thorough):
-  """fit on list / int64 / Fortran-ordered / strided copies of the same (integer-valued) numbers"""
-  for name, kw, data in fits.zoo_specs(np.random.default_rng(ctx.seed + 17), variants=False):
-    data = dict(data)
-    data['X'] = np.round(data['X'] * 4)            # integer-valued features
-    data['yreg'] = np.round(data['yreg'] * 4)
-    if len(np.unique(data['X'], axis=0)) != len(data['X']):
-      continue
-    kw = fits.sdml_fix_balance(name, fits.base_kwargs(name, data), data)
-    args = fits.fit_args(name, data)
-    try:
-      ref = fits.fit(name, kw, data).components_
-    except Exception:
-      ctx.count('equivalence_fit_failed', 1)
-      continue
-    A = args[0]
-    big = np.zeros(tuple(2 * s for s in A.shape))
-    big[tuple(slice(None, None, 2) for _ in A.shape)] = A
-    variants = [('list', A.tolist()), ('int64', A.astype(np.int64)), ('int32', A.astype(np.int32)),
-                ('fortran', np.asfortranarray(A)), ('strided', big[tuple(slice(None, None, 2) for _ in A.shape)])]
-    for vn, Av in variants:
-      ctx.count('equivalent_arraylikes', 1)
-      try:
-        with warnings.catch_warnings():
-          warnings.simplefilter('ignore')
-          got = fits.make_estimator(name, kw).fit(Av, *args[1:]).components_
-      except Exception as ex:
-        ctx.fail_input('equivalent_arraylikes', 'fit on %s data raises %s' % (vn, type(ex).__name__),
-                       dict(estimator=name, representation=vn), observed=str(ex)[:200])
+  """fit on list / integer-typed / Fortran-ordered / strided copies of the same (integer-valued) numbers, formed or
+  given as indicators of a preprocessor that holds them"""
+  for name, kw, data0 in fits.zoo_specs(np.random.default_rng(ctx.seed + 17), variants=False):
+    for shifted in (False, True):
+      data = dict(data0)
+      data['X'] = np.round(data0['X'] * 4)            # integer-valued features
+      if shifted:
+        data['X'] = data['X'] - data['X'].min()       # non-negative: also valid as unsigned / narrow types
+      data['yreg'] = np.round(data0['yreg'] * 4)
+      if len(np.unique(data['X'], axis=0)) != len(data['X']) or data['X'].max() > 120:
         continue
-      same = got.shape == ref.shape and np.allclose(got, ref, rtol=1e-7, atol=1e-9 * (np.abs(ref).max() + 1e-300), equal_nan=True)
-      if not same:
-        ctx.fail_input('equivalent_arraylikes', 'fit on %s data gives a different model' % vn,
-                       dict(estimator=name, representation=vn, X=np.asarray(A).tolist()),
-                       observed=np.asarray(got).tolist(), expected=ref.tolist())
+      kw = fits.sdml_fix_balance(name, fits.base_kwargs(name, data), data)
+      args = fits.fit_args(name, data)
+      try:
+        ref = fits.fit(name, kw, data).components_
+      except Exception:
+        ctx.count('equivalence_fit_failed', 1)
+        continue
+      A = args[0]
+      X = data['X']
+      key = {'pairs': 'pairs_idx', 'triplets': 'trip_idx', 'quads': 'quad_idx'}.get(fits.KIND[name])
+      idx = data[key] if key else np.arange(len(X))
+      big = np.zeros(tuple(2 * s for s in A.shape))
+      big[tuple(slice(None, None, 2) for _ in A.shape)] = A
+      if not shifted:
+        variants = [('list', A.tolist(), None), ('int64', A.astype(np.int64), None), ('int32', A.astype(np.int32), None),
+                    ('fortran', np.asfortranarray(A), None), ('strided', big[tuple(slice(None, None, 2) for _ in A.shape)], None),
+                    ('indices+float64 preprocessor', idx, X), ('indices+int64 preprocessor', idx, X.astype(np.int64))]
+      else:
+        variants = [(np.dtype(t).name, A.astype(t), None) for t in (np.uint8, np.int8, np.uint16, np.int16, np.uint64)]
+        variants += [('indices+%s preprocessor' % np.dtype(t).name, idx, X.astype(t)) for t in (np.uint8, np.int16)]
+        variants += [('indices+uint8 callable preprocessor', idx, (lambda Z: (lambda i: Z[np.asarray(i)]))(X.astype(np.uint8)))]
+      for vn, Av, pre in variants:
+        ctx.count('equivalent_arraylikes', 1)
+        ctx.hist('equivalence.representation', vn)
+        kwv = dict(kw)
+        if pre is not None:
+          kwv['preprocessor'] = pre
+        try:
+          with warnings.catch_warnings():
+            warnings.simplefilter('ignore')
+            got = fits.make_estimator(name, kwv).fit(Av, *args[1:]).components_
+        except Exception as ex:
+          ctx.fail_input('equivalent_arraylikes', 'fit on %s data raises %s' % (vn, type(ex).__name__),
+                         dict(estimator=name, representation=vn), observed=str(ex)[:200])
+          continue
+        same = got.shape == ref.shape and np.allclose(got, ref, rtol=1e-7, atol=1e-9 * (np.abs(ref).max() + 1e-300), equal_nan=True)
+        if not same:
+          ctx.fail_input('equivalent_arraylikes', 'fit on %s data gives a different model' % vn,
+                         dict(estimator=name, representation=vn, X=np.asarray(X).tolist()),
+                         observed=np.asarray(got).tolist(), expected=ref.tolist())
 
 
 def run(ctx):
@@ -335,7 +352,8 @@ def run(ctx):
               "shape of metric_learn._util.check_input vs the Coq model (%s). estimator lane: 17 fitted estimators x "
               "{fit, transform, pair_distance, pair_score, score_pairs, predict, decision_function, score, "
               "calibrate_threshold} x malformations: outcome must be ValueError, well-formed must return. equivalence lane: "
-              "fit on list/int64/int32/Fortran/strided copies." % ("complete enumeration" if thorough else "random 2500-case sample of the full grammar"))
+              "fit on list/int64/int32/Fortran/strided copies and, for non-negative values, uint8/int8/uint16/int16/uint64 copies of "
+              "integer-valued float64 data, formed or as indicators of a preprocessor holding the float64/int64/uint8/int16 copy." % ("complete enumeration" if thorough else "random 2500-case sample of the full grammar"))
   ctx.trusted = ["Coq 8.16.1 kernel + vm_compute", "hand-written model Model/Validate.v tied to the code by the enumeration",
                  "oracle model of scikit-learn check_array/check_X_y (sk_bad, y_bad), validated on the same grammar",
                  "translator tools/translate_query.py for the per-method validation table"]
